@@ -127,6 +127,10 @@ pub fn err_json(e: &(dyn std::error::Error + 'static)) -> Value {
     }
     if let Some(io) = e.downcast_ref::<std::io::Error>() {
         let msg = io.to_string();
+        if let Some(ext) = msg.strip_prefix("conv:") {
+            // a decoding error that the loader reported as an io::Error
+            return json!({"e":"conv","ext":ext});
+        }
         let ext = msg.strip_prefix("mem:").and_then(|m| m.split(':').nth(1)).unwrap_or("?").to_string();
         return json!({"e":"io","kind":crate::mem::kind_name(io.kind()),"ext":ext});
     }
